@@ -19,9 +19,9 @@ NOT_DECIDED = ("the calendar arithmetic of the candidate builders (weekday stepp
 TRUSTED = ["clang 14 parser/CFG builder", "echse-facts extractor", "python rule engines in /verif/sa", "RFC 5545 3.3.10 table as transcribed in the oracle"]
 LEVEL_TEXT = ("Static verdict on necessary structural clauses of C01 for all rules at once: every applicable rule part influences every "
               "filler's output, the parser maps every keyword to its field, dispatch is exhaustive, and there is a single expansion path. It does "
-              "not decide that the produced instants are the RFC 5545 set.")
+              "not decide that the produced instants are the RFC 5545 set. Also: the month length held by a filler's calendar cursor is computed from the cursor's own (year, month) (R01.6).")
 LEVEL_NOTE = "Trusted: clang 14 front end/CFG, extractor, rule engines; the applicability oracle is RFC 5545's table restricted to the supported language."
-TECHNIQUE = "static analysis: influence closure (def-use + control dependence) per filler against the RFC applicability matrix; exhaustiveness of parser/dispatch switches; call-graph who-may-call"
+TECHNIQUE = "static analysis: influence closure (def-use + control dependence) per filler against the RFC applicability matrix; exhaustiveness of parser/dispatch switches; call-graph who-may-call; loop-range facts for the calendar cursor"
 
 FREQS = ["Sly", "Mly", "Hly", "dly", "wly", "mly", "yly"]
 FREQ_ENUM = {"FREQ_SECONDLY": "Sly", "FREQ_MINUTELY": "Mly", "FREQ_HOURLY": "Hly", "FREQ_DAILY": "dly", "FREQ_WEEKLY": "wly",
